@@ -327,11 +327,16 @@ func (g *gen) ifWithNested(k int) stmtSpec {
 	return s
 }
 
-// elseIfChain is ONE top-level if followed by k else-if branches (one-line conditions).
-func (g *gen) elseIfChain(k int) stmtSpec {
+// elseIfChain is ONE top-level if followed by k else-if branches; tall > 0 gives one of the branches a condition of
+// that many lines.
+func (g *gen) elseIfChain(k int, tall int) stmtSpec {
 	s := stmtSpec{kind: "if", h: 1, body: g.simples(1)}
 	for i := 0; i < k; i++ {
 		s.elifs = append(s.elifs, g.simples(1))
+		s.elifH = append(s.elifH, 1)
+	}
+	if tall > 1 && k > 0 {
+		s.elifH[g.r.Intn(k)] = tall
 	}
 	if g.r.Bool() {
 		s.els = g.simples(1)
@@ -700,6 +705,44 @@ func init() {
 			}})
 		}
 	}
+	// 10. else-if ladders at the boundaries. The if of an `else if` is nested in the else branch of the if before it:
+	// (a) ONE top-level if with 5..9 else-if branches (6..10 conditions) is one top-level if: no repeatedSwitches;
+	// (b) 6..10 top-level ifs one of which carries 1-3 else-if branches: the count is the number of top-level ifs;
+	// (c) an else-if branch whose condition spans 2..6 lines: not a top-level if condition, no complexCondition
+	for _, d := range offs() {
+		for _, v := range []string{"ladderBranches", "topIfs", "elseIfConditionLines"} {
+			d, v := d, v
+			tag := v + ":" + tagOff(d) + "/class/else-if"
+			if v == "ladderBranches" {
+				tag = "elseIfLadder:conditions=" + tagOff(d) + "/class"
+			}
+			points = append(points, point{tag, func(g *gen) *classSpec {
+				form := "class"
+				if g.r.Chance(1, 4) {
+					form = "iface-default"
+				}
+				ms := g.plain(form)
+				ms.params = g.r.Intn(3)
+				var body []stmtSpec
+				switch v {
+				case "ladderBranches":
+					body = []stmtSpec{g.elseIfChain(tRepeat+d-1, 0)}
+					for i, n := 0, g.r.Intn(3); i < n; i++ {
+						body = append(body, g.tinyIf())
+					}
+				case "topIfs":
+					for i := 0; i < tRepeat+d-1; i++ {
+						body = append(body, g.tinyIf())
+					}
+					body = append(body, g.elseIfChain(g.r.Range(1, 3), 0))
+				default:
+					body = []stmtSpec{g.elseIfChain(g.r.Range(1, 3), tCond+d), g.ifS(g.r.Range(1, 3), false)}
+				}
+				ms.body = g.mix(body)
+				return g.host(kindOf(form), false, ms)
+			}})
+		}
+	}
 	// 9. lambdas with explicitly typed parameters in the body of a method whose own parameter count is 3..7: the
 	// lambda's parameters are not the method's
 	for _, d := range offs() {
@@ -813,9 +856,9 @@ func (g *gen) richMethod(cs *classSpec) *methodSpec {
 		stm = append(stm, g.ifWithNested(g.r.Range(1, 4)))
 		nIf++
 	}
-	// else-if chains only where counting their members could not reach the threshold
-	if k := g.r.Range(1, 3); g.r.Chance(1, 4) && nIf+1+k < tRepeat {
-		stm = append(stm, g.elseIfChain(k))
+	// else-if ladders: one top-level if each, whatever the number of branches and the height of their conditions
+	if g.r.Chance(1, 4) {
+		stm = append(stm, g.elseIfChain(g.r.PickInt(1, 2, 3, 6, 7, 8), g.r.PickInt(0, 0, 3, 4, 5)))
 		nIf++
 	}
 	if ms.form == "class" && g.r.Chance(1, 8) {
@@ -944,6 +987,17 @@ func Rich(r *run.Rand) *Project {
 	{
 		m := g.accessorNamed(g.plain("class"))
 		m.body = g.mix([]stmtSpec{g.ifS(tCond+g.r.Range(0, 1), g.r.Bool()), g.ifS(tCond-1, false)})
+		ms = append(ms, m)
+	}
+	{
+		// one top-level if with a ladder of 7-9 else-if branches, one of them with a 4-line condition, next to 6 plain
+		// ifs: 7 top-level ifs, no repeatedSwitches, no complexCondition
+		m := g.plain("class")
+		b := []stmtSpec{g.elseIfChain(g.r.Range(7, 9), tCond)}
+		for i := 0; i < tRepeat-2; i++ {
+			b = append(b, stmtSpec{kind: "if", h: 1, noBr: true, body: []stmtSpec{{kind: "simple", text: "acc++;"}}})
+		}
+		m.body = g.mix(b)
 		ms = append(ms, m)
 	}
 	{
